@@ -295,7 +295,7 @@ func (p *{{parser}}) _act(prod int32) any {
 			case {{ prod_index }}:
 				return p.{{ method.Name() }}(
 				{{- range param_index, param := method.Params }}
-				  _cast[{{ go_type(get_term_go_type(prod.Terms[param_index])) }}](p._stack.Peek({{ len(method.Params) - param_index - 1 }}).Sym),
+				  _cast[{{ go_type(get_term_go_type(prod.Terms[param_index])) }}](p._stack.Peek({{ len(method.Params) - param_index - 1 }}).Sym){{ if method.Variadic() && param_index == len(method.Params) - 1 }}...{{ end }},
 				{{- end }}
 		    )
 	{{- else if generated == "one_or_more" }}
